@@ -357,6 +357,8 @@ class Unit:
         self.parts = []  # ('text', str) | ('struct', rel, name, kw) | ('impl', header, [Fn]) | ('fn', Fn)
         self.type_rewrites = []  # (regex, repl, why) applied to every extracted signature/body/struct
         self.witnesses = []  # names of proof fns that are reachability witnesses
+        self.label_props = {}  # label prefix -> [property ids] (longest prefix wins)
+        self.rlimit = 30
 
     def text(self, s):
         self.parts.append(("text", s))
